@@ -434,3 +434,35 @@ fn c09_mean_queries_pure() {
     let _ = g.sample_count();
     assert!(arith_bits_f64(&g.log_space) == before && arith_bits_f64(&g.clone().log_space) == before, "C09:geometric:query-modifies-state");
 }
+
+// ------------------------------------------------------------------------------------------------ thorough tier (C11)
+#[kani::proof]
+#[kani::unwind(5)]
+#[kani::stub(<StudentsT as ContinuousCDF<f64, f64>>::inverse_cdf, icdf_t_stub)]
+#[kani::stub(<Normal as ContinuousCDF<f64, f64>>::inverse_cdf, icdf_n_stub)]
+fn t11_arith_ci_api_f32() {
+    let data = any_prefix_f32::<3>();
+    let conf = any_conf_practical();
+    match Arithmetic::<f32>::ci(conf, &data) {
+        Ok(i) => assert!(well_formed_f32(&i) && data.len >= 2, "C11:arith:ci:f32:ok-with-nan-or-too-few-samples"),
+        Err(e) => assert!(documented_ci_error(&e), "C11:arith:ci:f32:undocumented-error-variant"),
+    }
+}
+#[kani::proof]
+#[kani::unwind(5)]
+#[kani::stub(<StudentsT as ContinuousCDF<f64, f64>>::inverse_cdf, icdf_t_stub)]
+#[kani::stub(<Normal as ContinuousCDF<f64, f64>>::inverse_cdf, icdf_n_stub)]
+#[kani::stub(<f64 as num_traits::Float>::ln, ln_stub_f64)]
+#[kani::stub(<f64 as num_traits::Float>::exp, exp_stub_f64)]
+fn t11_geometric_harmonic_ci_api_f64() {
+    let data = any_prefix_f64::<2>();
+    let conf = any_conf_practical();
+    match Geometric::<f64>::ci(conf, &data) {
+        Ok(i) => assert!(well_formed_f64(&i) && data.len >= 2, "C11:geometric:ci:ok-with-nan-or-too-few-samples"),
+        Err(e) => assert!(documented_ci_error(&e), "C11:geometric:ci:undocumented-error-variant"),
+    }
+    match Harmonic::<f64>::ci(conf, &data) {
+        Ok(i) => assert!(well_formed_f64(&i) && data.len >= 2, "C11:harmonic:ci:ok-with-nan-or-too-few-samples"),
+        Err(e) => assert!(documented_ci_error(&e), "C11:harmonic:ci:undocumented-error-variant"),
+    }
+}
